@@ -31,12 +31,15 @@ VERIF_MAIN {
   unsigned int rc = UNIT(u_dyn)(bk, bv, NBULK, ops, NOPS, q, out);
   OUT(rc); for (int i = 0; i < OUTLEN; i++) OUT(out[i]);
   ASSERT(rc == 0, "valid bulk-load, updates and queries do not throw and iteration terminates");
+#if DMODE == 2
   /* C15 */
   ASSERT((out[8] & 1) == 0, "C15 every level strictly sorted by key");
   ASSERT((out[8] & 2) == 0, "C15 level sizes within capacity (buffer and base^i)");
   ASSERT((out[8] & (4 | 64)) == 0, "C15 no data beyond the used levels");
   ASSERT((out[8] & (8 | 16)) == 0, "C15 every non-empty indexed level owns a PGM-index built over exactly its keys");
   ASSERT((out[8] & 32) == 0, "C15 the index of an emptied level is reset");
+#endif
+#if DMODE == 0
   /* C05 */
   ASSERT(out[0] == (unsigned long) present[q[0]], "C05 find(k) hits iff k is live");
   if (present[q[0]]) ASSERT(out[1] == val[q[0]], "C05 find(k) yields the most recently assigned value");
@@ -45,24 +48,33 @@ VERIF_MAIN {
   for (int k = KMAX; k >= 0; k--) if (k >= q[1] && present[k]) lbk = k;
   ASSERT((out[3] != 0) == (lbk >= 0), "C05 lower_bound(k) is end() iff no live key >= k");
   if (lbk >= 0) ASSERT(out[4] == (unsigned long) lbk && out[5] == val[lbk], "C05 lower_bound(k) designates the smallest live key >= k with its current value");
+#endif
   /* C06 */
   unsigned long live = 0;
   for (int k = 0; k <= KMAX; k++) live += present[k];
+#if DMODE == 3
   ASSERT(out[6] == live, "C06 size() equals the number of live keys");
   ASSERT((out[7] != 0) == (live == 0), "C06 empty() iff no live key");
+#endif
+#if DMODE == 1
   ASSERT(out[9] == live, "C06 begin()..end() visits exactly as many elements as there are live keys");
   { int idx = 0;
     for (int k = 0; k <= KMAX; k++) if (present[k]) {
       if (idx < MAXOUT) ASSERT(out[10 + 2 * idx] == (unsigned long) k && out[11 + 2 * idx] == val[k], "C06 iteration visits the live keys in increasing order with their current values");
       idx++; } }
+#endif
   { unsigned long base = 10 + 2 * MAXOUT; int idx = 0; unsigned long cnt = 0, from_lb = 0;
     for (int k = 0; k <= KMAX; k++) if (present[k] && k >= q[2] && k <= q[3]) cnt++;
     for (int k = 0; k <= KMAX; k++) if (present[k] && k >= q[1]) from_lb++;
+#if DMODE == 3
     ASSERT(out[base] == cnt, "C06 range(lo,hi) returns exactly the live pairs with lo <= key <= hi");
     for (int k = 0; k <= KMAX; k++) if (present[k] && k >= q[2] && k <= q[3]) {
       if (idx < MAXOUT) ASSERT(out[base + 1 + 2 * idx] == (unsigned long) k && out[base + 2 + 2 * idx] == val[k], "C06 range(lo,hi) is in key order with current values");
       idx++; }
+#endif
+#if DMODE == 4
     ASSERT(out[base + 1 + 2 * MAXOUT] == from_lb, "C06 iterating from lower_bound(k) visits exactly the live keys >= k");
+#endif
   }
   VERIF_END;
 }
